@@ -7,7 +7,7 @@ Tie (checked on every run; exact unless stated):
                  `counts` True/False, `vectors`/`alphas`: grid shape, offset, units, filled voxels and per-voxel counts are compared
                  with the Lean model (`c19.vox`); all coordinates are multiples of pitch/4, so p/pitch is exact and hits .5 ties.
  (c) `tan`     : `navis.make_dotprops(skeleton, k=0|None)`: points == model midpoints (exact), vector parallel to the model's
-                 `child − parent` with the same orientation (cross = 0, dot > 0 against the exact Rat vector), |vect| = 1 (1e-12),
+                 `child − parent` (cross = 0 against the exact Rat vector; the sign is recorded, not compared), |vect| = 1 (1e-12),
                  length² == exact squared length (1e-12 rel.), zero-length edges dropped.
  (d) `dots`    : `navis.make_dotprops(points, k)` (ndarray / DataFrame / TreeNeuron / MeshNeuron / Dotprops, NaN rows, k > n):
                  `k` == Lean `kClip`; points == finite rows; tangent = principal axis of the exact (Fraction) inertia matrix of the
@@ -50,12 +50,7 @@ try:
 except Exception:       # pragma: no cover
     HAVE_SKELETOR = False
 
-SIG_COUNTS = 'neuron2voxels/counts=True/voxel-outside-bounds/raises'
-SIG_VECT = 'neuron2voxels/vectors-or-alphas/voxel-outside-bounds/IndexError-or-misplaced-vector'
-SIG_ORIENT = 'neuron2tangents/orientation/parent-to-child'
-SIG_INF = 'make_dotprops/inf-row/raises'
-SIG_ALPHA_NAN = 'make_dotprops/alpha-NaN/zero-variance-neighbourhood'
-SIG_ISO = 'tree2meshneuron/single-node-fragment/no-geometry-vertex_map-misaligned'
+SIG_ISO = 'tree2meshneuron/single-node-fragment/no-geometry'
 
 
 # ---------------------------------------------------------------------------------------------
@@ -203,17 +198,10 @@ def case_vox(ctx, case):
     except Exception as e:
         ctx.count('vox_impl_error', type(e).__name__)
         msg = f'{type(e).__name__}: {str(e)[:120]}'
-        if counts and m['written'] == 'ERR' and isinstance(e, ValueError):
-            ctx.oracle(False, f'voxelize(counts=True) raises when a voxel falls outside the bounds ({msg}); the property demands '
-                              f'the clipped grid with total {n_in}', case, signature=SIG_COUNTS)
-        elif (vectors or alphas) and clipped and isinstance(e, IndexError):
-            ctx.oracle(False, f'voxelize(vectors/alphas) raises when a point\'s voxel falls outside the grid ({msg})', case,
-                       signature=SIG_VECT)
-        else:
-            ctx.oracle(False, f'voxelize raises {msg}', case)
+        ctx.oracle(False, f'voxelize(counts={counts}, vectors={vectors}, alphas={alphas}) raises {msg}'
+                          + (f'; {n - n_in} point(s) fall outside the grid, the property demands the clipped grid with total {n_in}'
+                             if clipped else ''), case)
         return
-    if counts and m['written'] == 'ERR':
-        ctx.corr('no error', 'ERR', 'counts=True with a clipped voxel: model of the code as written raises, navis does not', case)
     grid = np.asarray(v.grid)
     shape = tuple(int(s) for s in grid.shape)
     i_filled = sorted(tuple(int(t) for t in r) for r in np.argwhere(grid != 0))
@@ -266,17 +254,22 @@ def case_vox(ctx, case):
             ctx.oracle(False, f'vectors=True: no vector field of shape {shape + (3,)}', case)
         else:
             nz = sorted(tuple(int(t) for t in r) for r in np.argwhere(np.abs(vec).sum(axis=3) > 0))
-            if clipped:
-                ctx.oracle(nz == i_filled, f'vectors=True with a point outside the grid: vectors sit in voxels {[t for t in nz if t not in i_filled][:4]} '
-                                           f'that are not filled (negative index wrap-around) / filled voxels without vector '
-                                           f'{[t for t in i_filled if t not in nz][:4]}', case, signature=SIG_VECT)
-            else:
-                ctx.oracle(nz == i_filled, f'vectors=True: voxels with a vector {nz[:6]} != filled voxels {i_filled[:6]}', case)
-                norms = [float(np.linalg.norm(vec[t])) for t in i_filled]
-                ctx.oracle(all(abs(nn - 1) < 1e-5 for nn in norms), 'vectors=True: vector of a filled voxel is not a unit vector', case)
+            ctx.corr(nz, vlist(m['vcells'], 3), 'voxels that received a vector (model vectorCells)', case)
+            ctx.oracle(nz == i_filled, f'vectors=True: vectors sit in voxels {[t for t in nz if t not in i_filled][:4]} that are not filled '
+                                       f'(e.g. index wrap-around of a point outside the bounds) / filled voxels without vector '
+                                       f'{[t for t in i_filled if t not in nz][:4]}', case)
+            norms = [float(np.linalg.norm(vec[t])) for t in i_filled]
+            ctx.oracle(all(abs(nn - 1) < 1e-5 for nn in norms), 'vectors=True: vector of a filled voxel is not a unit vector', case)
     if alphas:
         a = getattr(v, 'alphas', None)
-        ctx.count('note_alphas_attribute_is_grid', isinstance(a, np.ndarray) and tuple(a.shape) == shape)
+        if not isinstance(a, np.ndarray) or tuple(a.shape) != shape:
+            ctx.oracle(False, f'alphas=True: `.alphas` is not a grid of shape {shape} (got {type(a).__name__} '
+                              f'{getattr(a, "shape", None)})', case)
+        else:
+            anz = sorted(tuple(int(t) for t in r) for r in np.argwhere(a != 0))
+            ctx.oracle(all(t in i_filled for t in anz), f'alphas=True: alpha values in voxels {[t for t in anz if t not in i_filled][:4]} '
+                                                        f'that are not filled', case)
+            ctx.oracle(bool(np.all(np.isfinite(a)) and np.all(a >= 0) and np.all(a <= 1 + 1e-6)), 'alphas=True: alpha outside [0, 1] / not finite', case)
 
 
 # ---------------------------------------------------------------------------------------------
@@ -316,13 +309,14 @@ def case_tan(ctx, case):
             w = [float(c) for c in t[3:6]]
             wn = math.sqrt(float(t[6]))
             cr = np.cross(v, w)
-            if not (np.abs(cr).max() <= 1e-12 * wn and float(np.dot(v, w)) > 0):
+            if not np.abs(cr).max() <= 1e-12 * wn:
                 ok_dir = False
+            ctx.count('tan_orientation', 'child-parent (parent→child)' if float(np.dot(v, w)) > 0 else 'parent-child (child→parent)')
             if not abs(L * L - float(t[6])) <= 1e-12 * float(t[6]):
                 ok_len = False
     else:
         ok_dir = ok_len = False
-    ctx.corr(ok_dir, True, 'vect parallel to and oriented like the model vector child − parent (cross = 0, dot > 0)', case)
+    ctx.corr(ok_dir, True, 'vect parallel to the model vector child − parent (cross = 0; the sign is not an observable)', case)
     ctx.corr(ok_len, True, 'length² == exact squared edge length', case)
     # ---------------- oracles (definition computed directly from the table)
     ctx.oracle(len(pts_i) == len(nondeg) == len(vect) == len(length),
@@ -334,20 +328,16 @@ def case_tan(ctx, case):
         ctx.oracle(bool(np.all(np.abs(np.linalg.norm(vect, axis=1) - 1) <= 1e-12)), 'tangent vectors are not unit vectors', case)
         ctx.oracle(bool(np.all(np.isfinite(vect)) and np.all(length > 0)), 'non-finite tangent or non-positive length', case)
     if len(pts_i) == len(nondeg) and [p3tok(p) for p in pts_i] == [p3tok([(c[k] + q[k]) / 2 for k in range(3)]) for c, q in nondeg]:
-        par, c2p, lens = True, True, True
+        par, lens = True, True
         for v, L, (c, q) in zip(vect, length, nondeg):
             d = np.array([float(q[k] - c[k]) for k in range(3)])         # child -> parent
             dn = math.sqrt(float(sum((q[k] - c[k]) ** 2 for k in range(3))))
             if np.abs(np.cross(v, d)).max() > 1e-12 * dn:
                 par = False
-            if float(np.dot(v, d)) <= 0:
-                c2p = False
             if abs(L - dn) > 1e-12 * dn:
                 lens = False
         ctx.oracle(par, 'tangent not parallel to its edge', case)
         ctx.oracle(lens, 'length is not the Euclidean child-parent distance', case)
-        ctx.oracle(c2p, 'neuron2tangents returns parent→child vectors (child_locs − parent_locs); docstring and property say '
-                        'child→parent (the unoriented tangent line is right)', case, signature=SIG_ORIENT)
 
 
 # ---------------------------------------------------------------------------------------------
@@ -446,6 +436,8 @@ def check_tangents(ctx, case, pts, k_used, vect, alpha, what):
             degenerate += 1
             if not (0 <= a <= 1):
                 nan_alpha.append(i)
+            elif a != 0:
+                bad_alpha.append((i, a, 0.0))
             continue
         Cf = np.array([[float(c) for c in r] for r in C])
         v = vect[i]
@@ -468,15 +460,15 @@ def check_tangents(ctx, case, pts, k_used, vect, alpha, what):
     ctx.oracle(not bad_axis, f'{what}: tangent is not the principal axis of the k nearest neighbours (point, residual/tr, gap/tr): {bad_axis[:3]}', case)
     ctx.oracle(not bad_alpha, f'{what}: alpha != (l1-l2)/(l1+l2+l3) of the exact inertia matrix (point, got, want): {bad_alpha[:3]}', case)
     ctx.oracle(not bad_range, f'{what}: alpha outside [0, 1] for a non-degenerate neighbourhood: {bad_range[:3]}', case)
-    ctx.oracle(not nan_alpha, f'{what}: alpha is NaN for {len(nan_alpha)} point(s) whose k nearest neighbours all coincide '
-                              f'(0/0; the property demands alpha in [0, 1])', case, signature=SIG_ALPHA_NAN)
+    ctx.oracle(not nan_alpha, f'{what}: alpha is NaN / outside [0, 1] for {len(nan_alpha)} point(s) whose k nearest neighbours all '
+                              f'coincide (0/0; the property demands alpha in [0, 1])', case)
     if len(vect):
         ctx.oracle(bool(np.all(np.abs(np.linalg.norm(vect, axis=1) - 1) <= 1e-12)), f'{what}: tangents are not unit vectors', case)
     # Lean alpha on exact singular values for analytic clouds
     if ana and 'svals' in ana:
         s = [fr(t) for t in ana['svals']]
         out = ctx.ask(f'c19.alpha {tok(s[0])} {tok(s[1])} {tok(s[2])}')
-        if out != 'NaN' and len(alpha):
+        if len(alpha):
             ctx.corr(all(abs(float(a) - float(Fr(out))) <= 1e-8 for a in alpha), True,
                      f'alpha == Lean alpha({ana["svals"]}) = {out}', case)
 
@@ -490,21 +482,17 @@ def case_dots(ctx, case):
     k = case['k']
     ctx.count('dots_kind', case['cloud']); ctx.count('dots_container', case['container'])
     ctx.count('dots_k_vs_n', 'k>n' if k > len(pts) else ('k=n' if k == len(pts) else 'k<n'))
-    ctx.count('dots_nan_rows', min(len(raw) - len(nonnan_rows), 3))
+    ctx.count('dots_nan_rows', min(len(raw) - len(nonnan_rows), 3)); ctx.count('dots_inf_rows', min(len(nonnan_rows) - len(finite_rows), 3))
     x = make_dots_input(case, pts)
     try:
         dp = navis.make_dotprops(x, k=k)
     except Exception as e:
         msg = f'{type(e).__name__}: {str(e)[:120]}'
-        if has_inf:
-            ctx.oracle(False, f'make_dotprops raises on a cloud with an infinite row ({msg}); the property demands one tangent per '
-                              f'finite point ({len(pts)} here)', case, signature=SIG_INF)
-        else:
-            ctx.oracle(False, f'make_dotprops(k={k}) raises {msg}', case)
+        ctx.oracle(False, f'make_dotprops(k={k}) raises {msg}' + ('; the cloud has a row with an infinite coordinate, the property '
+                          f'demands one tangent per finite point ({len(pts)} here)' if has_inf else ''), case)
         return
-    if not has_inf:
-        kc = int(ctx.ask(f'c19.kclip {len(pts)} {k}'))
-        ctx.corr(int(dp.k), kc, 'Dotprops.k == min(n_points, k)', case)
+    kc = int(ctx.ask(f'c19.kclip {len(pts)} {k}'))
+    ctx.corr(int(dp.k), kc, 'Dotprops.k == min(n_finite_points, k)', case)
     ctx.oracle(int(dp.k) <= len(pts) and int(dp.k) <= k, f'k used ({dp.k}) exceeds the number of points ({len(pts)}) or the requested k ({k})', case)
     P = np.asarray(dp.points, dtype=float)
     ctx.oracle(len(P) == len(pts) and [p3tok([fl(c) for c in p]) for p in P] == [p3tok(p) for p in pts],
@@ -558,22 +546,24 @@ def case_tube(ctx, case):
     has_child = {r_['parent'] for r_ in rows}
     iso = [i for i, r_ in enumerate(rows) if r_['parent'] < 0 and r_['id'] not in has_child]
     ctx.count('tube_isolated_nodes', min(len(iso), 3))
+    ctx.oracle(len(vm) == len(V) and (len(V) == 0 or (vm.min() >= 0 and vm.max() < len(P))),
+               f'vertex_map ({len(vm)} entries) does not map every one of the {len(V)} vertices to a node index', case)
+    if len(vm) != len(V):
+        return
     if iso:
-        ok_iso = len(vm) == len(V) and all((vm == i).any() for i in iso)
-        ctx.oracle(ok_iso, f'single-node fragment(s) (node index {iso[:4]}) get no tube geometry, yet vertex_map has {len(vm)} entries for '
-                           f'{len(V)} vertices: the mesh does not contain these nodes and vertex_map no longer lines up with the vertices',
-                   case, signature=SIG_ISO)
-        if not ok_iso:
-            return
-    ctx.oracle(len(vm) == len(V) and len(V) > 0 and vm.min() >= 0 and vm.max() < len(P), 'vertex_map does not map every vertex to a node index', case)
-    if len(vm) != len(V) or len(V) == 0:
+        ctx.oracle(all((vm == i).any() for i in iso), f'single-node fragment(s) (node index {iso[:4]}) get no tube geometry: the mesh does '
+                                                      f'not contain these nodes', case, signature=SIG_ISO)
+    if len(V) == 0:
+        ctx.oracle(len(iso) == len(P), 'empty tube mesh for a skeleton with edges', case)
         return
     tp = case['tube_points']
     missing, off_centre = [], []
     for i in range(len(P)):
         ring = V[vm == i]
         if len(ring) == 0:
-            missing.append(i); continue
+            if i not in iso:
+                missing.append(i)
+            continue
         for j in range(0, len(ring), tp):
             c = ring[j:j + tp].mean(axis=0)
             if np.abs(c - P[i]).max() > 1e-9 * scale:
@@ -583,12 +573,13 @@ def case_tube(ctx, case):
     if tm is not None and len(m.faces):
         try:
             d = tm.proximity.closest_point(m.trimesh, P)[1]
-            far = [(i, float(d[i]), float(R[i])) for i in range(len(P)) if d[i] > 2 * R.max() + 1e-9 * scale]
+            far = [(i, float(d[i]), float(R[i])) for i in range(len(P)) if i not in iso and d[i] > 2 * R.max() + 1e-9 * scale]
             ctx.oracle(not far, f'surface farther than twice the largest radius from a node (node index, distance, radius): {far[:3]}', case)
         except Exception as e:     # proximity query needs rtree
             ctx.count('tube_proximity_unavailable', type(e).__name__)
     bb = np.array([V.min(axis=0), V.max(axis=0)])
-    ctx.oracle(bool(np.all(P >= bb[0] - 1e-9 * scale) and np.all(P <= bb[1] + 1e-9 * scale)), 'a node lies outside the bounding box of the tube mesh', case)
+    Pn = np.delete(P, iso, axis=0) if iso else P
+    ctx.oracle(bool(np.all(Pn >= bb[0] - 1e-9 * scale) and np.all(Pn <= bb[1] + 1e-9 * scale)), 'a node lies outside the bounding box of the tube mesh', case)
     ctx.oracle(unit_name(m) == unit_name(x), 'units not carried over to the mesh', case)
 
 
@@ -969,9 +960,10 @@ def run(ctx):
     missing = [n for n, ok in (('skimage', HAVE_SKIMAGE), ('skeletor', HAVE_SKELETOR), ('trimesh', tm is not None)) if not ok]
     if missing:
         ctx.notes.append(f'optional dependencies missing, streams skipped: {missing}')
-    ctx.notes.append('not counted as defects: voxelize(alphas=True) attaches the alpha of the last voxel (`n.alphas = alpha`) instead of the '
-                     'alpha grid; navis.mesh(ndarray) / navis.skeletonize(ndarray) raise AttributeError (`x.ndims`, `x.points`); '
-                     'make_dotprops on an empty / all-NaN cloud raises ValueError')
+    ctx.notes.append('not counted as defects: navis.mesh(ndarray) / navis.skeletonize(ndarray) raise AttributeError (`x.ndims`, `x.points`); '
+                     'make_dotprops on an empty / all-NaN cloud raises ValueError; recalculate_tangents(k=1) fails a reshape. '
+                     'neuron2tangents returns child − parent (pointing parent→child) although its docstring says child→parent: tangents are '
+                     'unoriented (NBLAST uses |dot|, the k>0 path has an arbitrary sign), so the sign is not treated as an observable')
     for kind, case in gen_cases(ctx):
         c = dict(case, kind=kind)
         ctx.case(c, nontrivial=nontrivial(kind, case), sample_every=97)
